@@ -25,7 +25,7 @@ def h_reader_fallback(which: str):
 
     def harness(h: H):
         from pyvc.theories.store import Store
-        from pyvc.values import PDict, PList, SBytes, SExc, SInt, SObj, SStr, TheoryObj
+        from pyvc.values import PDict, PList, SBytes, SExc, SInt, SObj, SOpt, SStr, TheoryObj
         from pyvc.engine import PyRaise, LoopSpec
         from pyvc import acc as _acc
         c = h.ctx
@@ -97,7 +97,13 @@ def h_reader_fallback(which: str):
             "*": LoopSpec(invariant=lambda I, e, it: [], havoc=lambda I, e, it: e.vars.__setitem__(which_list, acc2), name="json",
                           skip=[which_list, "file_entry", "manifest_entry", "data_file", "manifest_file"])}
         h.assume(z3.Select(st.ex, st.key(h.I, p)))
-        out, val = h.run(f"file_manager:FileManager.{fn}", [fm, p])
+        expected = SOpt(c.fresh_bool("expected_count_not_given"), SInt(c.fresh_int("expected_count")))
+        out, val = h.run(f"file_manager:FileManager.{fn}", [fm, p], {("expected_entries" if which == "manifest" else "expected_manifests"): expected})
+        if out == "ok":
+            got = val.fields.get("len_z") if isinstance(val, TheoryObj) and val.theory == "acc" else None
+            h.ensure("COUNT-CHECK:normal-return=>the-file-holds-exactly-the-number-of-entries-recorded-for-it(when-one-was-recorded)",
+                     z3.Or(expected.isnone, got == expected.val.z) if got is not None else z3.BoolVal(False),
+                     detail="an Avro file cut at a block boundary (down to the bare header) still parses: only the recorded count reveals it")
         if out == "ok":
             via_avro = g["avro"] == 0 or (g["avro"] == 2 and done["avro_loop_exit"] and g["json"] is None)
             h.ensure("FALLBACK:normal-return=>avro-read-to-the-end-or-a-JSON-document-that-carries-the-entry-list",
@@ -105,7 +111,8 @@ def h_reader_fallback(which: str):
                      detail=f"avro={g['avro']} json={g['json']} has-list={g['haskey']}: bytes that are neither a readable Avro file nor a legacy JSON "
                             f"manifest were reported as an EMPTY {which}")
         else:
-            h.ensure("FALLBACK:a-completely-readable-avro-file-never-raises", g["avro"] != 0, detail=repr(val))
+            h.ensure("FALLBACK:a-completely-readable-avro-file-raises-only-for-a-count-mismatch",
+                     z3.Or(z3.BoolVal(g["avro"] != 0), z3.And(z3.Not(expected.isnone), z3.BoolVal(val.cls == "ValueError"))), detail=repr(val))
     return harness
 
 
@@ -131,6 +138,39 @@ try:
                     bad.append((target, junk, api, "returned", r if api == "row_count" else len(r)))
                 except Exception:
                     pass
+    # truncation at Avro structural boundaries (header end, block ends): parseable prefixes
+    import io, fastavro, time
+    def boundaries(path):
+        data = open(path, "rb").read(); fo = io.BytesIO(data); r = fastavro.block_reader(fo); offs = [fo.tell()]
+        for _b in r: offs.append(fo.tell())
+        return data, offs
+    for target in ("manifest_list", "manifest"):
+        p = os.path.join(root, "cut_" + target)
+        t = create_table(p, schema=Schema(schema_id=1, fields=[{"id": 1, "name": "a", "type": "long", "required": False}]))
+        with t.new_transaction() as tx:
+            tx.append_data([{"a": 1}]); tx.append_data([{"a": 2}]); tx.commit()
+        t.append_records([{"a": 3}])
+        cur = load_table(p).metadata_manager.refresh()
+        if target == "manifest_list":
+            f = os.path.join(p, cur.snapshots[-1].manifest_list.lstrip("/"))
+        else:
+            f = sorted(glob.glob(os.path.join(p, "metadata", "manifests", "manifest_[0-9]*.avro")), key=os.path.getmtime)[0]
+        data, offs = boundaries(f)
+        for cut in offs[:-1]:
+            open(f, "wb").write(data[:cut])
+            try:
+                rows = sorted(r["a"] for r in load_table(p).scan())
+                if rows != [1, 2, 3]: bad.append((target, "cut at byte", cut, "scan returned", rows))
+            except Exception:
+                pass
+            old = time.time() - 7200
+            for d, _s, fs in os.walk(p):
+                for x in fs: os.utime(os.path.join(d, x), (old, old))
+            before = set(os.listdir(os.path.join(p, "data")))
+            try: load_table(p).garbage_collect(grace_period_ms=1000)
+            except Exception: pass
+            if set(os.listdir(os.path.join(p, "data"))) != before: bad.append((target, "cut at byte", cut, "a collection deleted data files of the damaged table"))
+        open(f, "wb").write(data)
 finally:
     shutil.rmtree(root, ignore_errors=True)
 print("replay manifest reader fallback ->", bad[:4] or "ok")
@@ -151,3 +191,6 @@ from contracts import commitpath as _cpw  # noqa: E402
 register(Unit(P, "CODEC-KEYS/create_manifest_file-entries", _cpw.h_manifest_entries, functions=["file_manager:FileManager.create_manifest_file"], replay=_replay_fallback))
 register(Unit(P, "CODEC-KEYS/read_manifest_file-entries", _cpw.h_manifest_read_entries, functions=["file_manager:FileManager.read_manifest_file"], replay=_replay_fallback))
 register(Unit(P, "CODEC-KEYS/create_manifest_list_file-entries", _cpw.h_manifest_list_entries, functions=["file_manager:FileManager.create_manifest_list_file"], replay=_replay_fallback))
+
+from contracts import helpers as _HC  # noqa: E402
+_HC.register_under("C14", ["COUNT/recorded_manifest_count", "COUNT/expected_entry_count", "COUNT/_check_count"])
